@@ -128,7 +128,7 @@ func (m *Merged) addRaceLogs(dir string, i int, id string) {
 			}
 			m.RaceReports++
 			sig := raceSig(blk)
-			v := Violation{Key: id + "/data-race/" + sig, Detail: "ThreadSanitizer: " + tail(blk, 1800), Case: map[string]interface{}{"race_report": tail(blk, 3000)}}
+			v := Violation{Key: id + "/data-race/" + sig, Detail: "ThreadSanitizer: " + head(blk, 2200), Case: map[string]interface{}{"race_report": head(blk, 6000)}}
 			if m.ViolationKeys[v.Key] == 0 {
 				m.Violations = append(m.Violations, v)
 			}
@@ -242,4 +242,12 @@ func (k *Known) open(id, key string) (KnownFinding, bool) {
 		}
 	}
 	return KnownFinding{}, false
+}
+
+func head(s string, n int) string {
+	s = strings.TrimSpace(s)
+	if len(s) <= n {
+		return s
+	}
+	return s[:n] + "…"
 }
